@@ -2,14 +2,15 @@
 (* Schedule printer for the multi-threaded (feature sync) SharedFd protocol: every holder
    exists in the initial state and lives on its own thread; the history records every atomic
    step as (role, hook site) with the projected state after it. One JSON line per maximal
-   interleaving; replayed through the schedule controller by harness bin fd_sched_sync. *)
+   interleaving (the closer's re-polls are "repoll" = same waker after a wake-up, "migrate" =
+   the future is polled with the other waker); replayed through the schedule controller by harness bin fd_sched_sync. *)
 EXTENDS SharedFd, Json
 
 VARIABLE hist
 gvars == <<vars, hist>>
 
-Proj == [count |-> count, waits |-> waits, closed |-> closed, c |-> pcC, woken |-> woken,
-         slot |-> slot]
+Proj == [count |-> count, waits |-> waits, closed |-> closed, c |-> pcC, woken |-> (wk \in woken),
+         wok |-> [i \in Wakers |-> i \in woken], wk |-> wk, slot |-> slot]
 
 Rec(who, site) == hist' = Append(hist, [r |-> who, s |-> site, x |-> Proj'])
 
@@ -27,11 +28,12 @@ GNext ==
   \/ CRegister /\ Rec("C", "fd.take.register")
   \/ CUnwrap2 /\ Rec("C", "fd.take.unwrap2")
   \/ CRepoll /\ Rec("C", "repoll")
+  \/ CMigrate /\ Rec("C", "migrate")
 
 GSpec == GInit /\ [][GNext]_gvars
 
 Terminal == /\ \A h \in Handles : hs[h] = "gone"
-            /\ pcC \in {"done", "pending"} /\ ~woken
+            /\ pcC \in {"done", "pending"} /\ wk \notin woken
 
 Emit == Terminal =>
           PrintT(<<"REPLAY", ToJson([variant |-> Variant, ops |-> Ops, n |-> Cardinality(Handles),
